@@ -28,6 +28,12 @@ def enum(shards):
     return dict(kind="enum", shards=shards)
 
 
+def fuzz(jobs, seconds, max_len=512, **kw):
+    d = dict(kind="fuzz", jobs=jobs, seconds=seconds, max_len=max_len, flavour="fuzz")
+    d.update(kw)
+    return d
+
+
 PROPS["C14"] = dict(
     harness="p_scan",
     phases=dict(quick=[enum(8), rc(8, 3000)], thorough=[enum(16), rc(16, 50000)]),
@@ -227,7 +233,7 @@ PROPS["C08"] = dict(
 
 PROPS["C02"] = dict(
     harness="p_total",
-    phases=dict(quick=[enum(8), rc(8, 2500)], thorough=[enum(16), rc(16, 80000)]),
+    phases=dict(quick=[enum(8), rc(8, 2500)], thorough=[enum(16), rc(16, 80000), fuzz(12, 420, max_len=600)]),
     rule=("cases: arbitrary file maps and main names: 1-4-edit token neighbours (incl. DEFINE/include tokens) of generated programs with "
           "macros and several files, token soup, raw bytes, the named truncated constructs (argument list ending in a comma, header "
           "without ports, DEFINE cut off, stray $n/#n/template tokens, out-of-range numbers) alone or embedded in soup, broken file maps "
@@ -336,7 +342,7 @@ PROPS["C13"] = dict(
 PROPS["C09"] = dict(
     harness="p_macro",
     phases=dict(quick=[enum(8), rc(4, 250), rc(4, 1000, flavour="fast", seed_offset=100)],
-                thorough=[enum(16), rc(8, 6000), rc(8, 40000, flavour="fast", seed_offset=100)]),
+                thorough=[enum(16), rc(8, 6000), rc(8, 40000, flavour="fast", seed_offset=100), fuzz(8, 360, max_len=300)]),
     rule=("cases: macro sets of 1-4 definitions (priorities from {none,5,5,9} so ties and inversions are frequent, literal identifiers / "
           "operator characters / integers / keywords from a small pool so candidates overlap, all five slot kinds, bodies with $n, #n, "
           "literals and re-emitted patterns) x token streams built from pattern instances whose slots are filled with identifiers, integers, "
@@ -446,6 +452,9 @@ def run_check(chk, drv):
         return dual_scanner(chk, drv, binp)
     bins = {(cfg["harness"], "asan"): binp}
     phases = cfg["phases"][chk.tier]
+    import os
+    if os.environ.get("VERIF_ONLY_KIND"):  # development knob: run only the phases of one kind
+        phases = [ph for ph in phases if ph["kind"] == os.environ["VERIF_ONLY_KIND"]]
     for ph in phases:
         key = (ph.get("harness", cfg["harness"]), ph.get("flavour", "asan"))
         if key not in bins:
@@ -457,6 +466,8 @@ def run_check(chk, drv):
     spawned = []
     for k, ph in enumerate(phases):
         key = (ph.get("harness", cfg["harness"]), ph.get("flavour", "asan"))
+        if ph["kind"] == "fuzz":
+            ph = dict(ph, replay_bin=bins.get((key[0], "asan")) or drv.build_harness(key[0], chk.th, "asan"))
         spawned.append(chk.spawn_phase(bins[key], ph, tagprefix="%s-%s%d-" % (key[0], key[1], k)))
     for ws in spawned:
         chk.collect_phase(ws)
@@ -486,11 +497,16 @@ def dual_scanner(chk, drv, binp):
         b = chk.run_phase(flexbin, ph, "flex-")
         if chk.violations or chk.broken:
             break
-        da = [s["digest"] for s in a]
-        db = [s["digest"] for s in b]
+        da = [s["digest"] for s in a if s]
+        db = [s["digest"] for s in b if s]
         if da != db:
             chk.violations.append(("scan:config-divergence",
                                    "committed lex.yy.c and the scanner generated from lexer.l produce different token streams "
                                    "on the same generated inputs (digests %s vs %s)" % (da, db),
                                    os.path.join(drv.VERIF, "evidence", "C14.json")))
+    if chk.tier == "thorough" and not chk.violations and not chk.broken:
+        # coverage-guided campaign on the committed scanner (libFuzzer, same tape decoder)
+        fz = drv.build_harness(cfg["harness"], chk.th, "fuzz")
+        ws = chk.spawn_phase(fz, dict(fuzz(8, 300, max_len=400), replay_bin=binp), "fuzz-")
+        chk.collect_phase(ws)
     return chk.finish()
